@@ -59,6 +59,9 @@ def run(ctx):
     ctx.rule("R3", "no key-state mutation before authentication in decrypt_short_packet")
     ctx.rule("R5", "a key update replaces both directions together: OneRttPacketKeys::update toggles the phase and installs the send key "
                    "and the receive key of the same generation (both taken from one next_packet_keys() result) on every path")
+    ctx.rule("R6", "header form and bit masks agree: the long-header protect / unprotect functions interpret the first byte with "
+                   "LongSpecificBits (reserved 0x0c, pn length 0x03) and the short-header ones with ShortSpecificBits (reserved 0x18, key "
+                   "phase 0x04), on both the sending and the receiving side")
     ctx.rule("R4", "a key update on receipt happens only for a key phase that differs from the current one AND for which no key "
                    "is retained: the previous generation's key survives late (reordered) packets of the old phase")
 
@@ -239,5 +242,22 @@ def run(ctx):
         ctx.ob("R5", "%s|installs the next receive key" % up.short, len(nk) == 1 and every_path(gr), up.where(),
                "writes of .remote[..] from the key set: %s (every path: %s)" % (gr, every_path(gr)))
         ctx.ob("R5", "%s|toggles the key phase" % up.short, every_path(tg), up.where(), "cur_phase.toggle() on every path: %s" % every_path(tg))
+    # ---------------------------------------------------------------- R6
+    FORMS = {"qbase::packet::decrypt::remove_protection_of_long_packet": "Long", "qbase::packet::decrypt::remove_protection_of_short_packet": "Short",
+             "qbase::packet::encrypt::encode_long_first_byte": "Long", "qbase::packet::encrypt::encode_short_first_byte": "Short"}
+    for fname, form in FORMS.items():
+        fb = ctx.anchor("R6", fname)
+        if not fb:
+            continue
+        used = set()
+        for l_ in fb.locals:
+            m_ = re.search(r"type::SpecificBits<(\d+)>|signal::SpecificBits<(\d+)>|SpecificBits<(\d+)>", l_["ty"])
+            if m_:
+                v_ = int([g for g in m_.groups() if g][0])
+                used.add({12: "Long", 24: "Short"}.get(v_, "mask %#x" % v_))
+        ctx.ob("R6", "%s|first byte read as %sSpecificBits only" % (fb.short, form), used == {form}, fb.where(),
+               "bit-mask types used: %s — with the other form's mask the reserved-bit check tests the wrong bits (a long-header type bit is "
+               "taken for a reserved bit: every 0-RTT packet is refused) and the packet-number length is read from the wrong place"
+               % sorted(used))
     ctx.assume("HeaderProtectionKey::sample_len() == 16 for every QUIC v1 cipher suite (RFC 9001 §5.4)")
     ctx.assume("decrypt_packet returns Ok only if the AEAD tag verifies (rustls/ring contract)")
